@@ -316,6 +316,9 @@ ROLES = [
     ('playback.studio.equalizer', 'Equalizer', '_handle_compare_execution_timeout', _is_kill_call, '_timeout_path__outlined', 'block'),
     ('playback.interception.files.file_interception', 'FileInterception', '_serialize_file',
      lambda n: isinstance(n, ast.Call) and isinstance(n.func, ast.Attribute) and n.func.attr == 'b64encode', '_serialize__outlined', 'pure'),
+    ('playback.interception.files.file_interception', 'FileInterception', '_get_file_path',
+     lambda n: isinstance(n, ast.Attribute) and n.attr == 'file_path_arg_name' and isinstance(n.ctx, ast.Load) and isinstance(n.value, ast.Name) and n.value.id == 'self',
+     '_path__outlined', 'pure-dup'),
     ('playback.studio.studio', 'PlaybackStudio', '_group_recording_ids_by_categories',
      lambda n: isinstance(n, ast.Call) and isinstance(n.func, ast.Attribute) and n.func.attr == 'extract_recording_category',
      '_grouping__outlined', 'block'),
@@ -393,18 +396,21 @@ def outline_roles(trees, signatures):
                 continue
             if pred is _is_kill_call:
                 pred = pred(c)
-            hosts = [(m, n) for m in c.body if isinstance(m, ast.FunctionDef) for n in _own_walk(m) if pred(n)]
+            allowed = ()
+            dup_ok = False
+            if isinstance(kind, tuple):
+                kind, allowed = kind
+            if kind == 'pure-dup':      # the owner may survive for other callers: an in-place copy is outlined next to it
+                kind, dup_ok = 'pure', True
+            hosts = [(m, n) for m in c.body if isinstance(m, ast.FunctionDef) and m.name != owner for n in _own_walk(m) if pred(n)]
             if len(hosts) != 1:
                 continue
             m, marker = hosts[0]
-            if m.name == owner or '%s::%s::%s' % (module, cls, m.name) not in signatures:
-                continue       # still its own function (possibly renamed): nothing to do
-            if any(isinstance(x, ast.FunctionDef) and x.name == owner for x in c.body):
+            if '%s::%s::%s' % (module, cls, m.name) not in signatures:
+                continue       # still its own function (renamed): nothing to do
+            if any(isinstance(x, ast.FunctionDef) and x.name == owner for x in c.body) and not dup_ok:
                 continue
             hint = signatures.get('%s::%s::%s' % (module, cls, owner), [])
-            allowed = ()
-            if isinstance(kind, tuple):
-                kind, allowed = kind
             if kind == 'pure':
                 h = outline(c, m, marker, name, order_hint=[p for p in hint if p != 'self'], allowed=allowed)
             else:
